@@ -1022,6 +1022,15 @@ func (x *Exec) applyContractSig(st *State, call *ast.CallExpr, sig *types.Signat
 		nv := cur
 		if cd.Assign != nil {
 			av := post.value(cd.Assign)
+			if cur.Set != nil && av.Set != nil && av.SetElem == cur.SetElem {
+				// set-valued ghost: a fresh set constant with exactly the members of the expression
+				ns := x.vc.fresh("gs_"+cd.Ghost, cur.Sort)
+				bv := "gsx!" + sanitize(cd.Ghost)
+				x.assume(st, fmt.Sprintf("(forall ((%s %s)) (= (select %s %s) %s))", bv, cur.SetElem, ns, bv, av.Set(Val{T: bv, Sort: cur.SetElem})))
+				w := x.wrapSet(Val{T: ns, Sort: cur.Sort, GoT: cur.GoT}, cur.SetElem)
+				st.heap["G:"+cd.Ghost] = w
+				continue
+			}
 			if av.Sort != cur.Sort {
 				panic(unsupported("records: sort mismatch for ghost " + cd.Ghost))
 			}
